@@ -7,7 +7,7 @@
 //! allocations are invisible.
 #![allow(static_mut_refs)]
 use std::alloc::{GlobalAlloc, Layout, System};
-use std::cell::Cell;
+use std::cell::{Cell, RefCell};
 
 pub const MAXB: usize = 1 << 16;
 #[derive(Clone, Copy)]
@@ -232,6 +232,39 @@ impl Clone for TrackedB {
         TrackedB::new(nid, val)
     }
 }
+
+// ------------------------------------------------------------------------------------------------
+// comparison / hashing / formatting of the tracked payloads: by VALUE (`val`), never by identity.
+// Every trait method first calls `cmp_hook()`: it runs the probe the harness installed (the counts of
+// the handles under comparison, *while the library's borrow is in use*) and panics when armed.
+thread_local! {
+    static CMP_ARMED: Cell<bool> = Cell::new(false);
+    static CMP_PROBE: RefCell<Option<Box<dyn Fn() -> String>>> = RefCell::new(None);
+    static CMP_SEEN: RefCell<Vec<String>> = RefCell::new(Vec::new());
+    static CMP_CALLS: Cell<usize> = Cell::new(0);
+}
+pub fn cmp_arm(on: bool) { CMP_ARMED.with(|c| c.set(on)); }
+pub fn cmp_set_probe(p: Option<Box<dyn Fn() -> String>>) { CMP_PROBE.with(|c| *c.borrow_mut() = p); }
+pub fn cmp_take_seen() -> (Vec<String>, usize) { (CMP_SEEN.with(|c| std::mem::take(&mut *c.borrow_mut())), CMP_CALLS.with(|c| c.replace(0))) }
+pub fn cmp_hook() {
+    let _u = Unrec::new();
+    CMP_CALLS.with(|c| c.set(c.get() + 1));
+    let seen = CMP_PROBE.with(|p| p.borrow().as_ref().map(|f| f()));
+    if let Some(x) = seen { CMP_SEEN.with(|c| { let mut v = c.borrow_mut(); if !v.contains(&x) { v.push(x); } }); }
+    if CMP_ARMED.with(|c| c.get()) { panic!("scripted comparison panic"); }
+}
+macro_rules! value_traits {
+    ($t:ty, $key:expr) => {
+        impl PartialEq for $t { fn eq(&self, o: &Self) -> bool { cmp_hook(); $key(self) == $key(o) } }
+        impl Eq for $t {}
+        impl PartialOrd for $t { fn partial_cmp(&self, o: &Self) -> Option<std::cmp::Ordering> { cmp_hook(); Some($key(self).cmp(&$key(o))) } }
+        impl Ord for $t { fn cmp(&self, o: &Self) -> std::cmp::Ordering { cmp_hook(); $key(self).cmp(&$key(o)) } }
+        impl std::hash::Hash for $t { fn hash<H: std::hash::Hasher>(&self, h: &mut H) { cmp_hook(); h.write_u64($key(self)); } }
+        impl std::fmt::Debug for $t { fn fmt(&self, f: &mut std::fmt::Formatter) -> std::fmt::Result { cmp_hook(); write!(f, "v{}", $key(self)) } }
+    };
+}
+value_traits!(Tracked, |x: &Tracked| x.read().1 as u64);
+value_traits!(TrackedB, |x: &TrackedB| x.read().1);
 
 /// Trait for `dyn` payloads.
 pub trait Tr { fn read_dyn(&self) -> (u32, u32); }
